@@ -151,14 +151,27 @@ def rec_equal(E, x, r, cnt, ev, R, n, m):
                  [cnt == R['cnt'], ev == R['ev']])
 
 
-def body(E, n, m, num_pts, npt_so_far, preset, with_h=False, xr=False, nsample_mode='one', fault=None):
+def body(E, n, m, num_pts, npt_so_far, preset, with_h=False, xr=False, nsample_mode='one', fault=None, proj=False):
     np = E.np
     log = EvalLog()
     objfun = mk_objfun(E, m, log, xr=xr, raise_at=(0 if fault == 'raise' else None))
     C, M, ghost, params = mk_controller(E, n, m, num_pts, npt_so_far, preset=preset, with_h=with_h, xr=xr, objfun=objfun,
                                          kopt_minimal=False)
-    rec = {'evals': [], 'rng': [], 'cb': []}
+    rec = {'evals': [], 'rng': [], 'cb': [], 'dyk': []}
     nsamples = install_stubs(E, C, M, params, n, m, log, xr, nsample_mode, rec)
+    if proj:
+        # general convex constraints: the model maps every point to user space through the alternating projection
+        userP = lambda w: w
+        boxP = lambda w: w
+        M.projections = [userP, boxP]
+        rec['boxP'] = boxP
+
+        def dykstra(P, x0, max_iter=100, tol=1e-10):
+            z = E.vec('dyk%d_' % len(rec['dyk']), n)
+            rec['dyk'].append({'out': z, 'P': list(P), 'arg': x0.copy()})
+            return z
+        E.patch('dykstra', dykstra)
+        E.patch('ctrsbox_geometry', lambda xbase, c, g, projections, Delta, d_max_iters=100, d_tol=1e-10, use_fortran=False: E.vec('cgeo', n))
     # ---- INV: stored objectives are above the small-objective threshold (the run would have stopped otherwise)
     thr = M.min_objective_value()
     E.assume(E.all([E.no(M.objval[k] <= thr) for k in range(npt_so_far)]))
@@ -220,6 +233,15 @@ def body(E, n, m, num_pts, npt_so_far, preset, with_h=False, xr=False, nsample_m
     except Exception as e:        # noqa
         outcome, exc = 'raise', e
     E.reach('outcome:' + outcome)
+    if proj:
+        # C09: every evaluated point is an output of the alternating projection over the model's projector list (box last)
+        for c in log.calls:
+            hits = [E.all([E.eq(c['x'][i], dk['out'][i]) for i in range(n)]) for dk in rec['dyk']]
+            E.prove(E.any(hits) if hits else False, 'C09:step:evaluated-point-is-an-alternating-projection-output')
+        for dk in rec['dyk']:
+            E.prove(len(dk['P']) == 2 and dk['P'][-1] is rec['boxP'], 'C09:step:projection-uses-the-model-list-with-the-box-last')
+        E.reach('C09:step:checked')
+        return
     check_step(E, outcome, exc, env, pre, C, M, params, log, rec, old_records, n, m, preset, xr, nsample_mode, fault, epilogue)
 
 
@@ -437,11 +459,16 @@ def step_harnesses(tier, seed, pid):
             combos = [D + ('default', False, True, 'one', None), D + ('default', False, False, 'one', 'raise'),
                       D + ('soft-restarts', False, True, 'one', None), D + ('noise', False, True, 'one', None),
                       D + ('default', False, True, 2, None), D + ('default', True, True, 'one', None)]
+    if pid == 'C09':
+        combos = [D + ('default', False, False, 'one', None)] if tier == 'quick' else \
+            [D + (p_, False, False, 'one', None) for p_ in ('default', 'soft-restarts', 'regression-geom', 'regression-momentum')] + \
+            [(2, 1, 3, 2, 'growing', False, False, 'one', None)]
     for (n, m, num_pts, npt_so_far, preset, with_h, xr, nsm, fault) in combos:
-        name = "step[n=%d,m=%d,npt=%d/%d,%s,h=%d,xr=%d,ns=%s%s]" % (n, m, npt_so_far, num_pts, preset, with_h, xr, nsm, ',fault=' + fault if fault else '')
+        name = "step[n=%d,m=%d,npt=%d/%d,%s,h=%d,xr=%d,ns=%s%s%s]" % (n, m, npt_so_far, num_pts, preset, with_h, xr, nsm, ',fault=' + fault if fault else '',
+                                                                    ',projections' if pid == 'C09' else '')
         hs.append(Harness(name, 'dfverif.step', 'body',
                           params=dict(n=n, m=m, num_pts=num_pts, npt_so_far=npt_so_far, preset=preset, with_h=with_h, xr=xr,
-                                      nsample_mode=nsm, fault=fault),
+                                      nsample_mode=nsm, fault=fault, proj=(pid == 'C09')),
                           cfg=core.Cfg(qtimeout_ms=20000, uflin=True, max_depth=3000), functions=FUNCS,
                           bounds="one main-loop iteration from any state satisfying INV; n=%d, m=%d, %d of %d points, option preset '%s', samples per point %s" % (
                               n, m, npt_so_far, num_pts, preset, nsm),
